@@ -49,6 +49,12 @@ type exec struct {
 	climit uint16
 	baseRoot common.Hash // root of the snapshot (kept referenced: `gc` never drops it)
 	base   anyTrie       // `snap`: the trie the difference / union iterators compare the live trie with
+	scribbleIn, scribbleOut bool // overwrite what was handed in / what was returned
+	shadowA, shadowB        *exec // the answering executor only: no scribbling / scribbling of inputs only
+	noShadow                bool  // case tag noshadow (large cases): no shadow runs, scribbling stays on
+	ins                     [][]byte
+	blobsDB                 *trie.Database
+	blobs                   map[common.Hash][]byte // InsertBlob'ed blobs of the current node database (private copies)
 	failAt, commits int  // write-failure injection: the failAt-th batch write since arming fails (0: never)
 	roots  []common.Hash // roots committed into the current trie.Database and still referenced (commit op), oldest first
 }
@@ -58,7 +64,8 @@ var quiet sync.Once
 // the repo's root logger writes to stdout (trie.Database.Commit logs at debug level); the replay protocol owns stdout
 func (P) NewExec() hx.Executor {
 	quiet.Do(func() { log.Root().SetHandler(log.DiscardHandler()) })
-	return &exec{dead: true}
+	return &exec{dead: true, scribbleIn: true, scribbleOut: true,
+		shadowA: &exec{dead: true}, shadowB: &exec{dead: true, scribbleIn: true}}
 }
 
 func (e *exec) t() anyTrie {
@@ -101,10 +108,15 @@ func (e *exec) tkey(k []byte) []byte {
 	return k
 }
 
-type recorder struct{ nodes [][]byte }
+type recorder struct {
+	nodes [][]byte
+	e     *exec
+}
 
 func (r *recorder) Put(key, value []byte) error {
 	r.nodes = append(r.nodes, append([]byte{}, value...))
+	// NOT scribbled: Prove hands its proof elements to a dbm.Putter, whose sibling interface documents
+	// "CONTRACT: key, value readonly []byte" (libs/db/types.go): the key is the node's cached hash itself
 	return nil
 }
 
@@ -140,18 +152,86 @@ func argInt(toks []string, k string) int {
 	return n
 }
 
+// Exec runs one op.  The executor that answers SCRIBBLES: as soon as the op is done it overwrites with 0xEE every byte
+// slice it handed to the trie API (keys, seek starts, hashed keys, proof node lists, blobs — not the values of Update, which
+// the API documents as "must not be modified by the caller while they are stored in the trie") and every slice the API
+// returned that is not documented as internal (iterator keys, leaf keys, proof nodes, GetKey results — not values, paths).
+// Two shadow executors run the same ops on their own tries, one scribbling nothing, one scribbling only what it handed in:
+// an answer that depends on scribbling names the op and the direction.
 func (e *exec) Exec(op string) string {
+	if e.shadowA == nil || e.noShadow || strings.HasPrefix(op, "case") {
+		if e.shadowA != nil && strings.HasPrefix(op, "case") {
+			e.noShadow = hx.TagsOf([]string{op})["noshadow"]
+			hx.SafeExec(shadowExec{e.shadowA}, op)
+			hx.SafeExec(shadowExec{e.shadowB}, op)
+		}
+		return e.execScribbling(op)
+	}
+	a := hx.SafeExec(shadowExec{e.shadowA}, op)
+	b := hx.SafeExec(shadowExec{e.shadowB}, op)
+	ans := e.execScribbling(op)
+	if ans != a && !strings.HasPrefix(a, "panic") {
+		name := hx.Tokens(op)[0]
+		if b != a {
+			return ans + " !keeps-caller-buffer:" + name
+		}
+		return ans + " !exposes-internal-buffer:" + name
+	}
+	return ans
+}
+
+type shadowExec struct{ e *exec }
+
+func (s shadowExec) Exec(op string) string { return s.e.execScribbling(op) }
+
+func fillEE(b []byte) {
+	for i := range b {
+		b[i] = 0xEE
+	}
+}
+
+// in registers a byte slice that is handed to the trie API
+func (e *exec) in(b []byte) []byte {
+	if e.scribbleIn {
+		e.ins = append(e.ins, b)
+	}
+	return b
+}
+
+// out scribbles a byte slice the API returned, after the caller has recorded it
+func (e *exec) out(b []byte) {
+	if e.scribbleOut {
+		fillEE(b)
+	}
+}
+
+func (e *exec) execScribbling(op string) string {
+	defer func() {
+		for _, b := range e.ins {
+			fillEE(b)
+		}
+		e.ins = nil
+	}()
+	return e.exec1(op)
+}
+
+func (e *exec) reset(n exec) {
+	n.scribbleIn, n.scribbleOut, n.shadowA, n.shadowB, n.noShadow = e.scribbleIn, e.scribbleOut, e.shadowA, e.shadowB, e.noShadow
+	*e = n
+}
+
+func (e *exec) exec1(op string) string {
 	toks := hx.Tokens(op)
 	switch toks[0] {
 	case "case":
-		*e = exec{dead: false}
+		e.reset(exec{dead: false})
 		e.disk = dbm.NewMemDB()
 		e.tdb = trie.NewDatabase(e.fdb())
 		e.open(common.EmptyHash)
 		return "ok"
 	case "new":
 		kind, _ := hx.Arg(toks, "kind")
-		*e = exec{secure: kind == "secure", climit: uint16(argInt(toks, "cl"))}
+		e.reset(exec{secure: kind == "secure", climit: uint16(argInt(toks, "cl"))})
 		e.disk = dbm.NewMemDB()
 		e.tdb = trie.NewDatabase(e.fdb())
 		e.open(common.EmptyHash)
@@ -162,13 +242,13 @@ func (e *exec) Exec(op string) string {
 		var nodes [][]byte
 		ns, _ := hx.Arg(toks, "nodes")
 		for _, n := range hx.SplitComma(ns) {
-			nodes = append(nodes, hx.UnHex(n))
+			nodes = append(nodes, e.in(hx.UnHex(n)))
 		}
 		root := common.HexToHash("56e81f171bcc55a6ff8345e692c0f86e5b48e01b996cadc001622fb5e363b421")
 		if len(nodes) > 0 {
 			root = common.BytesToHash(crypto.Keccak256(nodes[0]))
 		}
-		v, _, err := trie.VerifyProof(root, argHex(toks, "k"), contentDB(nodes))
+		v, _, err := trie.VerifyProof(root, e.in(argHex(toks, "k")), contentDB(nodes))
 		switch {
 		case err != nil:
 			return "res=err"
@@ -188,12 +268,12 @@ func (e *exec) Exec(op string) string {
 		if w, _ := hx.Arg(toks, "w"); w == "1" {
 			// the logging wrappers Update / Delete / Get / Root of the package API
 			if e.secure {
-				e.sec.Update(argHex(toks, "k"), argHex(toks, "v"))
+				e.sec.Update(e.in(argHex(toks, "k")), argHex(toks, "v"))
 			} else {
-				e.plain.Update(argHex(toks, "k"), argHex(toks, "v"))
+				e.plain.Update(e.in(argHex(toks, "k")), argHex(toks, "v"))
 			}
 			ans = "ok"
-		} else if err := e.t().TryUpdate(argHex(toks, "k"), argHex(toks, "v")); err != nil {
+		} else if err := e.t().TryUpdate(e.in(argHex(toks, "k")), argHex(toks, "v")); err != nil {
 			ans = "err-missing-node"
 		} else {
 			ans = "ok"
@@ -201,12 +281,12 @@ func (e *exec) Exec(op string) string {
 	case "del":
 		if w, _ := hx.Arg(toks, "w"); w == "1" {
 			if e.secure {
-				e.sec.Delete(argHex(toks, "k"))
+				e.sec.Delete(e.in(argHex(toks, "k")))
 			} else {
-				e.plain.Delete(argHex(toks, "k"))
+				e.plain.Delete(e.in(argHex(toks, "k")))
 			}
 			ans = "ok"
-		} else if err := e.t().TryDelete(argHex(toks, "k")); err != nil {
+		} else if err := e.t().TryDelete(e.in(argHex(toks, "k"))); err != nil {
 			ans = "err-missing-node"
 		} else {
 			ans = "ok"
@@ -215,14 +295,14 @@ func (e *exec) Exec(op string) string {
 		if w, _ := hx.Arg(toks, "w"); w == "1" {
 			var v []byte
 			if e.secure {
-				v = e.sec.Get(argHex(toks, "k"))
+				v = e.sec.Get(e.in(argHex(toks, "k")))
 			} else {
-				v = e.plain.Get(argHex(toks, "k"))
+				v = e.plain.Get(e.in(argHex(toks, "k")))
 			}
 			ans = "v=" + hx.Hex(v)
 			break
 		}
-		v, err := e.t().TryGet(argHex(toks, "k"))
+		v, err := e.t().TryGet(e.in(argHex(toks, "k")))
 		if err != nil {
 			ans = "err-missing-node"
 		} else {
@@ -321,6 +401,7 @@ func (e *exec) Exec(op string) string {
 		var items []string
 		for it.Next() {
 			items = append(items, hx.Hex(it.Key)+":"+hx.Hex(it.Value))
+			e.out(it.Key)
 		}
 		if it.Err != nil {
 			ans = "err-iter"
@@ -332,9 +413,9 @@ func (e *exec) Exec(op string) string {
 		}
 		ans = fmt.Sprintf("n=%d kv=%s", len(items), kv)
 	case "prove":
-		key := e.tkey(argHex(toks, "k"))
+		key := e.in(e.tkey(e.in(argHex(toks, "k"))))
 		root := e.t().Hash()
-		rec := &recorder{}
+		rec := &recorder{e: e}
 		if err := e.t().Prove(key, uint(argInt(toks, "from")), rec); err != nil {
 			ans = "err-prove"
 			break
@@ -350,9 +431,9 @@ func (e *exec) Exec(op string) string {
 		}
 	case "tamper":
 		// TestBadProof convention: one proof node altered and re-inserted under the hash of the altered bytes
-		key := e.tkey(argHex(toks, "k"))
+		key := e.in(e.tkey(e.in(argHex(toks, "k"))))
 		root := e.t().Hash()
-		rec := &recorder{}
+		rec := &recorder{e: e}
 		if err := e.t().Prove(key, 0, rec); err != nil {
 			ans = "err-prove"
 			break
@@ -473,6 +554,12 @@ func (P) Monitor(c *hx.CaseRun) []hx.Failure {
 	for i, op := range c.Ops {
 		ans := c.Impl[i]
 		toks := hx.Tokens(op)
+		if j := strings.Index(ans, " !"); j >= 0 {
+			// the answering executor scribbles over every buffer it handed to / got from the trie API; a shadow executor that does
+			// not scribble answered differently: the trie kept a caller's buffer, or handed out one of its own
+			fail("buffers_not_shared", "trie-"+ans[j+2:], "libs/trie", fmt.Sprintf("the answer depends on the caller overwriting its buffers after the call: %s -> %s (op %d)", op, ans, i))
+			ans = ans[:j]
+		}
 		if strings.HasPrefix(ans, "panic") && toks[0] == "rawverify" {
 			site := strings.TrimPrefix(ans, "panic ")
 			fail("verifyproof_total", "verifyproof-panic:"+site, site, "VerifyProof panics on a malformed proof node (content-addressed database, root = hash of the first node): "+op)
